@@ -191,3 +191,19 @@ package td
 //@   ensures named:  forall k int :: 0 <= k && k < len(bs) ==> bs[k] != nil && bs[k].Name != ""
 //@   ensures badstrict: forall i int, j int :: 0 <= i && i < j && j < len(bs) ==> bs[i].Port < bs[j].Port
 //@ end
+
+//@ func LenAcrossUnknown
+//@   ensures badstable: result
+//@ end
+
+//@ func LenFirstAfterUnknown
+//@   ensures badsame: result == old(len(m))
+//@   ensures nonneg:  result >= 0
+//@ end
+
+//@ func Weights
+//@   loop 1 step grows: len(out) == $head(len(out)) || len(out) == $head(len(out)) + 1
+//@   loop 1 step own:   len(out) == $head(len(out)) + 1 ==> out[len(out)-1] == (p.W != nil ? *p.W : 1)
+//@   loop 1 step badshrink: len(out) < $head(len(out))
+//@   loop 1 invariant own: cap(out) == 0 || fresh(out)
+//@ end
